@@ -345,3 +345,4 @@ PROPS['C20']['rules'] += [X.rule_mdsize_guard]
 for _p in ('C01', 'C03', 'C04', 'C14', 'C15', 'C16', 'C20', 'C02', 'C07'):
     for _k, _v in ALL_TEXT.items():
         PROPS[_p]['rule_texts'].setdefault(_k, _v)
+PROPS['C02']['rules'] += [rules_table.rule_to_sparse]
